@@ -71,3 +71,11 @@ package time
 //@ func builtinAttrNames
 //@   prop C03
 //@   ensures sorted(result)
+
+// t.unix and t.nanosecond decompose the instant: unix = floor(instant / 1e9) (also before 1970),
+// nanosecond = instant - unix * 1e9 in [0, 1e9); t.unix_nano is the instant itself when it fits
+//@ func Time.Attr
+//@   prop C19
+//@   ensures unix_is_floor: name == "unix" ==> result1 == nil && typeis(result0, starlark.Int) && val(as(result0, starlark.Int)) == fdiv(inst(t), 1000000000)
+//@   ensures nanosecond_is_remainder: name == "nanosecond" ==> result1 == nil && typeis(result0, starlark.Int) && val(as(result0, starlark.Int)) == inst(t) - 1000000000 * fdiv(inst(t), 1000000000)
+//@   ensures unix_nano_is_instant: name == "unix_nano" && MIN64 <= inst(t) && inst(t) <= MAX64 ==> result1 == nil && typeis(result0, starlark.Int) && val(as(result0, starlark.Int)) == inst(t)
